@@ -14,13 +14,13 @@ from .sim import fs_snapshot, sha
 
 
 @st.composite
-def clean_histories(draw, with_tool=True):
+def clean_histories(draw, with_tool=True, focus=None):
     """Histories with user actions on former/current outputs and optional `stepup clean` calls.
 
     Biased so that the interesting situation is frequent: an output loses its declaration (its
     step is dropped, renamed or re-roled) in the very stage in which the user touched it.
     """
-    hist = draw(specgen.histories(max_steps=5, min_builds=2, max_builds=4))
+    hist = draw(specgen.histories(max_steps=5, min_builds=2, max_builds=4, focus=focus))
     stages = hist["stages"]
     for i in range(1, len(stages)):
         prev = stages[i - 1]["spec"]
@@ -81,6 +81,17 @@ def clean_histories(draw, with_tool=True):
         stages[i]["build"]["user_actions"] = actions
         if draw(st.integers(0, 4)) == 0:
             stages[i]["build"]["do_clean"] = False
+        if with_tool and draw(st.integers(0, 3)) == 0:
+            # a build restricted to targets must not clean anything
+            outs_now = sorted(p for p, (_n, role) in now_outs.items() if role == "out")
+            mode = draw(st.sampled_from(["dirs", "dirs", "files", "mixed"]))
+            targets = []
+            if mode in ("dirs", "mixed"):
+                targets += draw(st.lists(st.sampled_from(specgen.OUT_DIRS + ["sub/"]), min_size=1,
+                                         max_size=2))
+            if mode in ("files", "mixed") and outs_now:
+                targets.append(draw(st.sampled_from(outs_now)))
+            stages[i]["build"]["targets"] = sorted(set(targets))
     for i, stage in enumerate(stages):
         if with_tool and draw(st.integers(0, 2)) == 0:
             outs = sorted(specgen.declared_outputs(stage["spec"]))
@@ -243,6 +254,7 @@ def stepup_should_have_cleaned(tables, ledger, dir_ledger, snapshot, before=None
             if c is not None and nodes[c]["detached"] and c not in held and n["i"] in held:
                 held.add(c)
                 changed = True
+    need_by_definition = H.needed_steps(tables)
     problems = []
     for path, written in ledger.last_written.items():
         if path in ledger.user_files:
@@ -270,11 +282,11 @@ def stepup_should_have_cleaned(tables, ledger, dir_ledger, snapshot, before=None
                 problems.append(("orphan-output-node-left-in-graph", path))
         else:
             pstate = steps[producer]
-            unneeded_optional = pstate["state"] == StepState.PENDING.value and \
-                pstate["_implied_need"] == 31
-            if unneeded_optional and on_disk and node is not None and \
-                    files[node["i"]]["state"] in (FileState.PLANNED.value,
-                                                  FileState.VOLATILE.value):
+            # "an optional step that is not needed", by the definition of need, not by the
+            # cached _implied_need column (which is what a defect would leave stale)
+            unneeded_optional = pstate["need"] == 31 and \
+                need_by_definition[nodes[producer]["label"]] <= 31
+            if unneeded_optional and on_disk and node is not None:
                 roles = ledger.ever_declared.get(path, set())
                 kind = "output-of-unneeded-optional-step-left-on-disk"
                 if {"out", "vol"} <= roles and files[node["i"]]["state"] == \
